@@ -181,6 +181,23 @@ func generate(p *Program, property string, onlyFunc string) *runResult {
 			}
 			rr.smokes = append(rr.smokes, x.smokes...)
 			rr.funcs = append(rr.funcs, rep)
+			if len(fc.Derives) > 0 {
+				dx := p.verifyDerived(fn, fc)
+				drep := funcReport{Key: k + " [derives]", Tags: p.tags, Paths: dx.paths, Errors: dx.errs}
+				for _, ob := range dx.obs {
+					if len(dx.errs) > 0 {
+						ob.Abstracted = append(ob.Abstracted, "derivation not verified: "+dx.errs[0])
+					}
+					if property == "" || hasProp(ob.Props, property) {
+						rr.obs = append(rr.obs, ob)
+						drep.Obligations++
+					}
+				}
+				for _, e := range dx.errs {
+					rr.errs = append(rr.errs, k+" [derives]: "+e)
+				}
+				rr.funcs = append(rr.funcs, drep)
+			}
 		}
 	}
 	return rr
@@ -292,10 +309,32 @@ func cmdCheck(args []string) int {
 			continue
 		}
 		progs = append(progs, p)
+		tGen := time.Now()
 		rr := generate(p, *property, *only)
+		if os.Getenv("STUNVC_TIMING") != "" {
+			fmt.Fprintf(os.Stderr, "timing: generate %s: %.1fs, %d obligations\n", tags, time.Since(tGen).Seconds(), len(rr.obs))
+		}
+		tPrep := time.Now()
+		defer func() {
+			if os.Getenv("STUNVC_TIMING") != "" {
+				fmt.Fprintf(os.Stderr, "timing: since prepare start %s: %.1fs\n", tags, time.Since(tPrep).Seconds())
+			}
+		}()
 		for _, ob := range rr.obs {
 			ob.Name = tags + ":" + ob.Name
+			ob, p := ob, p
+			plain := &Obligation{Name: ob.Name, Func: ob.Func, Kind: ob.Kind, Props: ob.Props, Pos: ob.Pos, Descr: ob.Descr, Tags: ob.Tags, Uses: ob.Uses,
+				Hyps: append([]*Term(nil), ob.Hyps...), Goal: ob.Goal}
 			p.instantiate(ob)
+			// the skolemised variant is built on demand (only when the ground core did not decide the obligation)
+			ob.prep = func() {
+				alt := skolemVariant(plain)
+				if alt != nil {
+					p.instantiate(alt)
+					ob.Alt = alt
+				}
+			}
+			ob.prepAnte = func() { p.prepareAntecedents(ob.Alt) }
 		}
 		all = append(all, rr.obs...)
 		for _, sm := range rr.smokes {
@@ -341,7 +380,11 @@ func cmdCheck(args []string) int {
 	if n := runtime.NumCPU(); workers > n {
 		workers = n // solver budgets are wall-clock: never oversubscribe the machine
 	}
+	tDis := time.Now()
 	dischargeAll(all, *tier, to, workers)
+	if os.Getenv("STUNVC_TIMING") != "" {
+		fmt.Fprintf(os.Stderr, "timing: discharge %.1fs\n", time.Since(tDis).Seconds())
+	}
 	vac := runSmokes(smokes, workers)
 	for _, v := range vac {
 		genErrs = append(genErrs, "vacuous hypotheses (contradictory contract/invariant): "+v)
@@ -360,7 +403,7 @@ func cmdCheck(args []string) int {
 			failed = append(failed, ob)
 		}
 		if *verbose {
-			fmt.Printf("  %-8s %-7s %6.2fs %s\n", ob.Result.Status, ob.Result.Solver, ob.Result.Seconds, ob.Name)
+			fmt.Printf("  %-8s %-7s %6.2fs %s  [%s]\n", ob.Result.Status, ob.Result.Solver, ob.Result.Seconds, ob.Name, truncate(ob.Result.Detail, 80))
 		}
 	}
 	violations := 0
